@@ -192,7 +192,7 @@ def svd_incomplete(I, Y, idx, idx_many, e=1.E-10, r=1.E+12):
 
         I_curr = I[idx[mode]:idx[mode+1], :]
         M = np.array([teneva.get(Y_res[:mode], i, _to_item=False)
-            for i in I_curr[::idx_many[mode], :mode]])
+            for i in I_curr[::idx_many[mode], :mode]])[:, 0, :]
 
         Y_curr = Y[idx[mode]:idx[mode+1]].reshape(-1, idx_many[mode], order='C')
         if Y_curr.shape[1] > r1:
